@@ -222,7 +222,57 @@ func check(id string, args []string) (code int) {
 	}
 	worst := 0
 	for _, p := range ids {
-		c := runOne(p, *tier, *verif, w)
+		c := runOne(p, *tier, *verif, w, nil)
+		if c > worst {
+			worst = c
+		}
+	}
+	if *tier != "thorough" || *overlay != "" {
+		return worst
+	}
+	// ---- thorough tier: (1) the same rules on a second load that includes test files and is type-checked for
+	// GOARCH=386 (build-tagged files, extra callers for who-may-call rules); (2) the checker's self-test for the
+	// property: every breaking variant must be reported, every repaired variant must be silent.
+	w2, err := core.Load(core.LoadOptions{Root: *root, Tests: true})
+	if err == nil {
+		// non-test sources must also type-check for a 32-bit target (files behind build tags, int-size assumptions)
+		_, err = core.Load(core.LoadOptions{Root: *root, Env: []string{"GOARCH=386"}})
+	}
+	if err != nil {
+		for _, p := range ids {
+			path := filepath.Join(*verif, "out", p, "loader-thorough.json")
+			_ = core.WriteJSON(path, map[string]string{"property": p, "error": err.Error()})
+			fmt.Printf("LOADER-FAILED (second load with tests / GOARCH=386 load) %v\nVIOLATION property=%s replay=%s\n", err, p, path)
+		}
+		return 1
+	}
+	self, _ := os.Executable()
+	for _, p := range ids {
+		extra := map[string]interface{}{}
+		// self-test first so that its tally lands in the evidence written by the final run
+		cmd := exec.Command(self, "selftest", "-root", *root, "-verif", *verif, "-property", p)
+		out, _ := cmd.CombinedOutput()
+		lines := strings.Split(strings.TrimSpace(string(out)), "\n")
+		tally := lines[len(lines)-1]
+		extra["selftest"] = tally
+		var failed []string
+		for _, l := range lines {
+			if strings.HasPrefix(l, "SELFTEST-FAILED") {
+				failed = append(failed, l)
+			}
+		}
+		fmt.Printf("== %s thorough: %s\n", p, tally)
+		if cmd.ProcessState.ExitCode() != 0 {
+			for _, l := range failed {
+				fmt.Println(l)
+			}
+			fmt.Printf("the checker's self-test failed for %s: the rules themselves are broken; no verdict about /repo is given\n", p)
+			if worst < 2 {
+				worst = 2
+			}
+		}
+		extra["second_load"] = fmt.Sprintf("with test files: packages=%d functions=%d; GOARCH=386 load of the non-test sources type-checked", len(w2.Pkgs), len(w2.Funcs))
+		c := runOne(p, *tier, *verif, w2, extra)
 		if c > worst {
 			worst = c
 		}
@@ -230,8 +280,11 @@ func check(id string, args []string) (code int) {
 	return worst
 }
 
-func runOne(p, tier, verif string, w *core.World) (code int) {
+func runOne(p, tier, verif string, w *core.World, extra map[string]interface{}) (code int) {
 	run := core.NewRun(p, tier, verif, w)
+	for k, v := range extra {
+		run.Extra[k] = v
+	}
 	defer func() {
 		if r := recover(); r != nil {
 			path := filepath.Join(verif, "out", p, "panic.json")
